@@ -1,6 +1,6 @@
 (* Groundwork for bounding the allocation counter `next` (it only moves in GetOrNewLock): the primitives of
-   Queues.v / Timers.v leave it unchanged.  The critical sections are not covered yet; InvMain.v therefore states its
-   run theorem for runs satisfying bounded_run. *)
+   Queues.v / Timers.v leave it unchanged.  The critical sections are covered by nx_step_le (next grows by at most one
+   per core action); InvProps.v derives bounded_run from the length bound of `core` (bounded_of_length, inv_core). *)
 From Coq Require Import String ZifyN ZifyBool ZifyNat.
 From Slock Require Import Engine.Types Engine.Queues Engine.Timers Engine.Engine Engine.Engine2 Engine.InvDef Engine.InvLockDefs.
 Open Scope N_scope.
